@@ -276,3 +276,69 @@ func executorGuardsItself(p *Prog, ex *ssa.Function, notExecuted string) bool {
 	}
 	return n > 0
 }
+
+// freshOrderIndexedRule (R07.9): an order created in a function (types.NewOrder...) and
+// stored there is entered into the orderer's index on every success path through the store:
+// cancel-all finds orders only through that index, so an unindexed order can never be
+// cancelled by it and its escrow stays locked until expiry.
+func freshOrderIndexedRule(p *Prog, r *Report, rule string, floor int) {
+	r.Rule(rule, "an order created and stored by a function is also entered into the orderer's index", floor)
+	for _, fn := range p.Funcs {
+		if moduleOf(fn) != "liquidity" || p.isAuxFn(fn) || len(fn.Blocks) == 0 || !strings.HasSuffix(fnPkgPath(fn), "/keeper") {
+			continue
+		}
+		var aBlocks []*ssa.BasicBlock
+		var first ssa.CallInstruction
+		for _, c := range calls(fn) {
+			if !p.callIs(c, "SetOrder") {
+				continue
+			}
+			for _, a := range callArgs(c) {
+				if namedTypeName(derefAll(a.Type())) != "Order" {
+					continue
+				}
+				for _, o := range p.Origins(a) {
+					if o.Kind == "call" && len(o.Path) == 0 {
+						if sc := o.Call.Common().StaticCallee(); sc != nil && strings.HasPrefix(sc.Name(), "NewOrder") && strings.HasSuffix(fnPkgPath(sc), "/types") {
+							aBlocks = append(aBlocks, c.Block())
+							if first == nil {
+								first = c
+							}
+						}
+					}
+				}
+			}
+		}
+		if len(aBlocks) == 0 {
+			continue
+		}
+		r.Instance(rule)
+		r.FuncsSeen[fname(fn)] = true
+		construct := fname(fn) + " new order indexed"
+		blocked := map[*ssa.BasicBlock]bool{}
+		for _, c := range calls(fn) {
+			if p.callIs(c, "SetOrderIndex") {
+				blocked[c.Block()] = true
+			}
+		}
+		bad := false
+		succ := p.successTargets(nil, fn, 0)
+		seenE, _ := reach(fn, nil, nil, blocked)
+		for _, ab := range aBlocks {
+			if blocked[ab] || !seenE[ab] {
+				continue
+			}
+			seenA, _ := reach(fn, ab, nil, blocked)
+			for _, t := range succ {
+				if seenA[t] {
+					bad = true
+				}
+			}
+		}
+		if bad {
+			r.Fail(rule, construct, "a newly created order is stored and the function can succeed without entering it into the orderer's index: cancel-all never finds it, it is not refunded and keeps trading", p.instrPos(first), nil)
+		} else {
+			r.OK(rule, construct, "every success path through the store also calls SetOrderIndex", p.instrPos(first))
+		}
+	}
+}
